@@ -68,3 +68,13 @@ Lemma nocopy_sites_ok :
   forallb (fun s => packer_root_site s || String.eqb s "mashumaro/dialect.py:Dialect.merge") nocopy_name_sites = true /\
   valuespec_nocopy_default = enc_origins [].
 Proof. repeat split; reflexivity. Qed.
+
+(* item specs inherit the value: no ValueSpec is constructed from scratch inside the types package (pack.py / unpack.py
+   derive every item spec by spec.copy(...) = dataclasses.replace), and the two sites that fill the option are
+   constructions at a packer root *)
+Definition in_types_package (s: string) : bool := String.prefix "mashumaro/core/meta/types/" s.
+
+Lemma item_specs_inherit :
+  existsb in_types_package valuespec_ctor_sites = false /\
+  forallb (fun s => existsb (String.eqb s) valuespec_ctor_sites) nocopy_write_sites = true.
+Proof. split; reflexivity. Qed.
